@@ -38,7 +38,6 @@ import (
 	"github.com/go-kid/ioc/container"
 	"github.com/go-kid/ioc/container/support"
 	"github.com/go-kid/ioc/util/list"
-	"github.com/go-kid/ioc/util/sync2"
 	"verifharness/hx"
 )
 
@@ -67,6 +66,7 @@ type SRes struct {
 type StressCase struct {
 	ID     int      `json:"id"`
 	Target string   `json:"target"` // map | cset | gset | reg
+	Ctor   string   `json:"ctor"`   // how the container is obtained (ctor.go); "" = its constructor
 	NKeys  int      `json:"nkeys"`
 	Init   [][2]int `json:"init"`  // contents before the goroutines start
 	Progs  [][]SOp  `json:"progs"` // one list per goroutine
@@ -115,7 +115,7 @@ func sortP(p [][2]int) [][2]int {
 
 // ---- sync2.Map ---------------------------------------------------------------------------------------
 
-type sMap struct{ m *sync2.Map[int, int] }
+type sMap struct{ m mapAPI }
 
 func (t sMap) contents() [][2]int {
 	p := [][2]int{}
@@ -338,7 +338,7 @@ func newStressTarget(c StressCase) stressTarget {
 		}
 		return t
 	case "map":
-		m := sync2.New[int, int]()
+		m := makeMap(c.Ctor)
 		for _, p := range c.Init {
 			m.Store(p[0], p[1])
 		}
@@ -354,14 +354,14 @@ func newStressTarget(c StressCase) stressTarget {
 		for _, p := range c.Init {
 			arr = append(arr, t.names[p[0]])
 		}
-		t.s = list.NewConcurrentSets(arr...) // the constructor with initial elements
+		t.s = makeCset(c.Ctor, arr...)
 		return sSet{t}
 	case "gset":
 		var arr []int
 		for _, p := range c.Init {
 			arr = append(arr, p[0])
 		}
-		return sSet{sGset{list.NewGenericConcurrentSets[int](arr...)}}
+		return sSet{sGset{makeGset(c.Ctor, arr...)}}
 	}
 	panic("bad target " + c.Target)
 }
